@@ -209,6 +209,9 @@ pub fn corpus(tier: Tier) -> Arc<Vec<TDoc>> {
     for v in crate::checks::c05::case_objects().iter().step_by(if tier.thorough() { 1 } else { 3 }) {
         texts.push(refmodel::text::print(v).into_bytes());
     }
+    for v in refmodel::gen::strkey_docs().iter().step_by(if tier.thorough() { 1 } else { 3 }) {
+        texts.push(refmodel::text::print(v).into_bytes());
+    }
     for s in special_texts() {
         texts.push(s.as_bytes().to_vec());
     }
